@@ -2,16 +2,25 @@
    Hamiltonian operator is the change in kinetic energy.
    Statements only.  Model: model/M_leapfrog.v (hand-written from integrator.py / operator.py /
    hamiltonian.py, tied on every run by exact-rational correspondence with
-   HMCOperator.step() / LeapfrogIntegrator.__call__).
+   HMCOperator.step() / LeapfrogIntegrator.__call__, and — for the integrator itself — by the arithmetic
+   regenerated from the source into gen/G_leapfrog.v, C16_integrator_source_is_model).
    [grad] is ANY function (the gradient of the potential energy as the code obtains it from
    autograd); no smoothness is used except where a derivative is mentioned explicitly. *)
 Set Warnings "-notation-overridden,-ambiguous-paths".
 From Coq Require Import QArith Reals List.
 From Coquelicot Require Import Coquelicot.
 Import ListNotations.
-From TT Require Import Num NumR NumQ ParamQ ParamI M_leapfrog M_lf_oracle P_leapfrog P_leapfrog_param P_leapfrog_jac.
+From TT Require Import Num NumR NumQ ParamQ ParamI M_leapfrog M_lf_oracle G_leapfrog P_leapfrog_gen P_leapfrog P_leapfrog_param P_leapfrog_jac.
 From TT Require P_leapfrog_det.
 Open Scope R_scope.
+
+(* The integrator assembled from the four expressions regenerated from LeapfrogIntegrator.__call__ (translator T9,
+   which also pins the order: new position, gradient AT the new position, momentum), in that order, IS the model's
+   [leapfrog]: every number type, step size, diagonal or dense mass matrix, gradient, number of steps, start. *)
+Theorem C16_integrator_source_is_model : forall (T : Type) (N : Num T) eps Minv grad L qp,
+  g_leapfrog N eps Minv grad L qp = leapfrog N eps Minv grad L qp.
+Proof. exact @g_leapfrog_is_model. Qed.
+Print Assumptions C16_integrator_source_is_model.
 
 (* The code's arrangement (half step, L x (position, full momentum step), half step BACK with the
    last gradient) is exactly L textbook kick-drift-kick steps.  Any grad, any dimension n, any L,
